@@ -54,6 +54,9 @@ SCHEDULES = [
     # an imported package whose own import is broken for a while (the regeneration fails while resolving imports)
     ("broken-import-of-import", [(0.0, "lib/_package.yml=namespace: Lib\nimports:\n  - ../missing\n"), (0.4, "small"),
                                  (0.4, "lib/_package.yml=namespace: Lib\nimports:\n  - ../lib2\n"), (0.4, "uses-lib")]),
+    # the command line carries configuration overrides: every regeneration must honour them, as the one-shot run does
+    ("config-overrides", [(0.0, "small"), (0.4, "invalid"), (0.4, "medium")],
+     ["-c", "python.generateNDJson=false", "-c", "cpp.generateNDJson=false"]),
     ("unfetchable-import-of-import", [(0.0, "lib/_package.yml=namespace: Lib\nimports:\n  - ../lib2\n  - ftp://example.invalid/x\n"), (0.4, "small"),
                                       (0.4, "lib/_package.yml=namespace: Lib\nimports:\n  - 'https:'\n"), (0.4, "small2"),
                                       (0.4, "lib/_package.yml=namespace: Lib\nimports:\n  - ../lib2\n"), (0.4, "uses-lib")]),
@@ -75,7 +78,7 @@ def tree(root):
     return h
 
 
-def one_shot(ctx, d, model):
+def one_shot(ctx, d, model, args=()):
     os.makedirs(d + "/model", exist_ok=True)
     os.makedirs(d + "/lib", exist_ok=True)
     open(d + "/lib/_package.yml", "w").write("namespace: Lib\nimports:\n  - ../lib2\n")
@@ -85,13 +88,13 @@ def one_shot(ctx, d, model):
     open(d + "/lib2/lib2.yml", "w").write("Deep: int32\n")
     open(d + "/model/_package.yml", "w").write(CFG)
     open(d + "/model/m.yml", "w").write(model)
-    rc, o, e = sh([ctx.yardl, "generate"], cwd=d + "/model", timeout=300)
+    rc, o, e = sh([ctx.yardl, "generate"] + list(args), cwd=d + "/model", timeout=300)
     if rc != 0:
         raise RuntimeError("one-shot generate failed: " + (o + e)[-500:])
     return tree(d + "/out")
 
 
-def scenario(ctx, idx, name, schedule):
+def scenario(ctx, idx, name, schedule, args=()):
     d = os.path.join(ctx.scratch, "w%d" % idx)
     os.makedirs(d + "/model")
     os.makedirs(d + "/lib")
@@ -103,7 +106,7 @@ def scenario(ctx, idx, name, schedule):
     open(d + "/model/_package.yml", "w").write(CFG)
     open(d + "/model/m.yml", "w").write(MODELS["small2"])
     log = open(d + "/watch.log", "wb")
-    p = subprocess.Popen([ctx.yardl, "generate", "--watch"], cwd=d + "/model", stdout=log, stderr=subprocess.STDOUT)
+    p = subprocess.Popen([ctx.yardl, "generate", "--watch"] + list(args), cwd=d + "/model", stdout=log, stderr=subprocess.STDOUT)
     try:
         t0 = time.time()
         while not os.path.exists(d + "/out/python/wt/types.py") and time.time() - t0 < 30:
@@ -131,7 +134,7 @@ def scenario(ctx, idx, name, schedule):
             if time.time() - t_end > 90:
                 break
         alive = p.poll() is None
-        return {"name": name, "dir": d, "tree": last, "alive": alive, "final": final, "schedule": schedule}
+        return {"name": name, "dir": d, "tree": last, "alive": alive, "final": final, "schedule": schedule, "args": list(args)}
     finally:
         p.kill()
         p.wait()
@@ -152,21 +155,22 @@ def run(ctx):
                    {"broken": failing, "log": log[-3000:]}, no_input=True)
     quick = ctx.tier == "quick"
     reps = 1 if quick else 3
-    jobs = [(i, n, s) for r in range(reps) for i, (n, s) in enumerate(SCHEDULES)]
-    jobs = [(k, n, s) for k, (_, n, s) in enumerate(jobs)]
+    scheds = [(e[0], e[1], tuple(e[2]) if len(e) > 2 else ()) for e in SCHEDULES]
+    jobs = [(n, s, a) for r in range(reps) for (n, s, a) in scheds]
+    jobs = [(k, n, s, a) for k, (n, s, a) in enumerate(jobs)]
     refs = {}
-    for key in {s[-1][1] for _, s in SCHEDULES}:
-        refs[key] = one_shot(ctx, os.path.join(ctx.scratch, "ref_" + key), MODELS[key])
+    for k, (key, a) in enumerate(sorted({(s[-1][1], a) for _, s, a in scheds})):
+        refs[(key, a)] = one_shot(ctx, os.path.join(ctx.scratch, "ref_%d" % k), MODELS[key], a)
     with ThreadPoolExecutor(max_workers=6) as ex:
         results = list(ex.map(lambda j: scenario(ctx, *j), jobs))
     for r in results:
-        ref = refs[r["final"]]
+        ref = refs[(r["final"], tuple(r["args"]))]
         differ = sorted(f for f in ref if r["tree"].get(f) != ref[f])
         stale = sorted(f for f in r["tree"] if f not in ref)
         ctx.case((r["name"], json.dumps(r["schedule"])), sample={"schedule": r["name"], "saves": len(r["schedule"]), "watcher_alive": r["alive"],
                                                                   "files_differing_from_one_shot": len(differ), "files_expected": len(ref)})
         ctx.count("schedule", r["name"])
-        rep = {"schedule": r["schedule"], "models": {k: MODELS.get(k, k)[:400] for _, k in r["schedule"]}, "files_differ": differ[:20],
+        rep = {"schedule": r["schedule"], "command_line_arguments": r["args"], "models": {k: MODELS.get(k, k)[:400] for _, k in r["schedule"]}, "files_differ": differ[:20],
                "watch_log_tail": open(os.path.join(r["dir"], "watch.log"), "rb").read()[-600:].decode("utf-8", errors="replace")}
         if not r["alive"]:
             ctx.report("watcher-died:" + r["name"], "`yardl generate --watch` exited during the schedule '%s'" % r["name"], rep)
